@@ -21,7 +21,16 @@ from typing import Any, Callable, Optional
 
 VERIF = os.path.dirname(os.path.dirname(os.path.abspath(__file__)))
 COQDIR = os.path.join(VERIF, "coq")
-REPO = os.environ.get("VERIF_REPO", "/repo")
+def _repo_path():
+    if os.environ.get("VERIF_REPO"):
+        return os.environ["VERIF_REPO"]
+    f = os.path.join(VERIF, ".repo_path")   # development worktrees only (git-ignored)
+    if os.path.exists(f):
+        return open(f).read().strip()
+    return "/repo"
+
+
+REPO = _repo_path()
 IMPL_PY = os.environ.get("VERIF_IMPL_PY", "/venv/bin/python")
 NPROC = int(os.environ.get("VERIF_NPROC", "14"))
 
